@@ -189,7 +189,10 @@ def model_nodeid(tier, wd, seed=1):
                               "MC_NodeId", wd, ("CASE ",))
     cases = list(dict.fromkeys(c[5:] for c in cap))
     stats["cases_emitted"] = len(cases)
-    cases = pick(cases, Q(tier, 6000, None), seed)
+    # the neighbourhood of the valid length is always replayed; the rest is sampled in the quick tier
+    near = [c for c in cases if '"len":6' in c or '"len":3' in c or '"kind":"parse"' in c]
+    rest = [c for c in cases if c not in set(near)]
+    cases = near + pick(rest, Q(tier, 3000, None), seed)
     stats["cases_replayed"] = len(cases)
     steps = []
     for c in cases:
